@@ -10,6 +10,7 @@ import (
 	"os"
 	"path/filepath"
 	"runtime"
+	"sort"
 	"strings"
 	"testing"
 	"time"
@@ -27,6 +28,10 @@ type EntrySpec struct {
 	Organism   string   `json:"organism,omitempty"`
 	Comment    string   `json:"comment,omitempty"`
 	Sequence   string   `json:"sequence"`
+	// Extras: indices into the dictionary of real-world child elements (realworld_test.go), written in schema order
+	// between <organism> and <sequence>; Precursor: the sequence element carries precursor="true" fragment="single"
+	Extras    []int `json:"extras,omitempty"`
+	Precursor bool  `json:"precursor,omitempty"`
 	// valid calendar dates (YYYY-MM-DD) for the entry's created / modified attributes and the sequence's modified
 	// attribute; empty = 2009-05-05
 	Created, Modified, SeqModified string `json:",omitempty"`
@@ -115,10 +120,22 @@ func document(c Case) (doc []byte, entryEnds []int, rootEnd int) {
 		if e.Organism != "" {
 			b.WriteString(in1 + "<organism>" + nl + in2 + `<name type="scientific">` + esc(e.Organism) + "</name>" + nl + in2 + `<dbReference type="NCBI Taxonomy" id="561445"/>` + nl + in1 + "</organism>" + nl)
 		}
+		var children []extra
 		if e.Comment != "" {
-			b.WriteString(in1 + `<comment type="function">` + nl + in2 + "<text>" + esc(e.Comment) + "</text>" + nl + in1 + "</comment>" + nl)
+			children = append(children, extra{4, `<comment type="function">` + nl + in2 + "<text>" + esc(e.Comment) + "</text>" + nl + in1 + "</comment>"})
 		}
-		fmt.Fprintf(&b, `%s<sequence length="%d" mass="%d" checksum="C4F2A0B1D3E5F607" modified="%s" version="1">%s</sequence>%s`, in1, len(e.Sequence), 110*len(e.Sequence), dateOr(e.SeqModified), e.Sequence, nl)
+		for _, k := range e.Extras {
+			children = append(children, extras[((k%len(extras))+len(extras))%len(extras)])
+		}
+		sort.SliceStable(children, func(i, j int) bool { return children[i].rank < children[j].rank })
+		for _, ch := range children {
+			b.WriteString(in1 + ch.xml + nl)
+		}
+		more := ""
+		if e.Precursor {
+			more = ` precursor="true" fragment="single"`
+		}
+		fmt.Fprintf(&b, `%s<sequence length="%d" mass="%d" checksum="C4F2A0B1D3E5F607" modified="%s" version="1"%s>%s</sequence>%s`, in1, len(e.Sequence), 110*len(e.Sequence), dateOr(e.SeqModified), more, e.Sequence, nl)
 		b.WriteString("</entry>")
 		entryEnds = append(entryEnds, b.Len())
 		b.WriteString(nl)
@@ -248,14 +265,6 @@ func judgeMalformed(b []byte) bool {
 			return true
 		}
 	}
-}
-
-func gz(b []byte) []byte {
-	var buf bytes.Buffer
-	w := gzip.NewWriter(&buf)
-	_, _ = w.Write(b)
-	_ = w.Close()
-	return buf.Bytes()
 }
 
 type outcome struct {
@@ -400,8 +409,9 @@ func check(c Case) error {
 	}
 	feed := data
 	if c.ViaGzip {
-		feed = gz(data)
+		feed = vk.Gzip(data) // one of six valid gzip forms, by content
 		if c.Damage.Kind == "truncate_gzip" {
+			feed = vk.GzipForm(data, 0) // a single member: every proper prefix of it is a damaged stream
 			t := ((c.Damage.At % len(feed)) + len(feed)) % len(feed)
 			feed = feed[:t]
 			damaged, mustDeliver = true, 0 // how much of the text survives a truncated deflate stream is not known
@@ -503,6 +513,12 @@ func labels(c Case) []string {
 	if c.Consumer.EntryCap < len(c.Entries) {
 		l = append(l, "entry capacity < entries")
 	}
+	for _, e := range c.Entries {
+		if len(e.Extras) > 0 {
+			l = append(l, "has an entry annotated with real-world child elements")
+			break
+		}
+	}
 	return l
 }
 
@@ -544,6 +560,10 @@ func drawEntry(t *rapid.T) EntrySpec {
 		e.Comment = strings.TrimSpace(textGen.Draw(t, "comment"))
 	}
 	e.Sequence = vk.DrawSeq(t, "sequence", "ACDEFGHIKLMNPQRSTVWY", 1, 400).String()
+	if rapid.IntRange(0, 2).Draw(t, "annotated") == 0 { // an entry annotated the way the data bank's are
+		e.Extras = rapid.SliceOfN(rapid.IntRange(0, len(extras)-1), 1, 12).Draw(t, "extras")
+		e.Precursor = rapid.Bool().Draw(t, "precursor")
+	}
 	if rapid.IntRange(0, 2).Draw(t, "dates") == 0 {
 		e.Created, e.Modified, e.SeqModified = drawDate(t, "created"), drawDate(t, "modified"), drawDate(t, "sequence_modified")
 	}
